@@ -198,6 +198,17 @@ func (l *lister) lists(vals []*ga.Val, nrand int) []*ga.Val {
 			break
 		}
 	}
+	// Equal but not identical through the sign of a zero (hardening round 4): an element that holds a
+	// float zero next to its copy with every zero's sign flipped (== and derived Equal cannot tell them
+	// apart, their bits differ), for the first two such pool values
+	nz := 0
+	for _, v := range vals {
+		if nz < 2 && ga.HasFloatZeroHB(v) {
+			nz++
+			f := ga.FlipZerosHB(v, l.fresh)
+			out = append(out, l.mk(nil, v, f, v), l.mk([]*ga.Val{f}, f, v2, v, f))
+		}
+	}
 	for i := 0; i < nrand; i++ {
 		n := l.r.Intn(7)
 		var es []*ga.Val
@@ -211,6 +222,44 @@ func (l *lister) lists(vals []*ga.Val, nrand int) []*ga.Val {
 		out = append(out, l.mk(sp, es...))
 	}
 	return out
+}
+
+// nanCases (hardening round 4): lists whose elements hold a NaN — the one value that is not Equal to
+// itself — in a float leaf of the element (outside map keys).  Contains must not find it, Unique keeps
+// every occurrence, Union appends every NaN element of the second list, Intersect drops them.  Only these
+// four functions: the evaluator judges them against the specification with IEEE equality (Sets/NaN.v).
+func nanCases(idx int, t *ga.Type, vals []*ga.Val, l *lister, ls []*ga.Val, out *strings.Builder) {
+	var base *ga.Val
+	for _, v := range vals {
+		if _, ok := ga.NaNifyHB(t, v, 0, l.fresh); ok {
+			base = v
+			break
+		}
+	}
+	if base == nil {
+		return
+	}
+	n1, _ := ga.NaNifyHB(t, base, 0, l.fresh)
+	nall, _ := ga.NaNifyHB(t, base, -1, l.fresh)
+	other := vals[len(vals)-1]
+	nls := []*ga.Val{
+		l.mk(nil, n1),
+		l.mk(nil, other, n1, base),
+		l.mk([]*ga.Val{base}, n1, n1, base, nall, base),
+		l.mk(nil, base, other),
+	}
+	items := []*ga.Val{n1, nall, base}
+	for _, lst := range nls {
+		for _, x := range items {
+			fmt.Fprintf(out, "contains %d %s %s\n", idx, lst.Sexp(), l.cl(x).Sexp())
+		}
+		fmt.Fprintf(out, "unique %d %s\n", idx, lst.Sexp())
+	}
+	pairs := [][2]*ga.Val{{nls[0], nls[0]}, {nls[1], nls[0]}, {nls[3], nls[2]}, {nls[2], nls[1]}, {ls[3], nls[1]}, {nls[2], ls[4]}}
+	for _, p := range pairs {
+		fmt.Fprintf(out, "union %d %s %s\n", idx, l.cl(p[0]).Sexp(), l.cl(p[1]).Sexp())
+		fmt.Fprintf(out, "intersect %d %s %s\n", idx, l.cl(p[0]).Sexp(), l.cl(p[1]).Sexp())
+	}
 }
 
 // loadCorpus reads corpus/C14/*.txt: "<Go element type>|<case line with %d for the type index>".
@@ -288,6 +337,7 @@ func Run(cfg hx.Config) (*hx.Meta, error) {
 					}
 				}
 			}
+			nanCases(idx, t, vals, l, ls, out)
 			for k := 0; k < npairs; k++ {
 				a, b := ls[k%len(ls)], hx.Pick(r, ls)
 				if k >= len(ls) {
